@@ -34,4 +34,5 @@ pub fn run(ctx: &Ctx) {
             Ok((a, b)) => { ctx.eval(format!("{class}:digest")); if a != want || b != want { ctx.violation(format!("{P}:signing_message:{class}:differs"), format!("digest {} is not Keccak-256(0x19 \"Ethereum Signed Message:\\n\" len m)", explore::hex(&a)), replay) } }
         }
     });
+    crate::hist::histories(ctx, P, "message-histories", "EthereumMessage::signing_message, a sequence on one fresh thread", crate::hist::c10_ops());
 }
